@@ -886,6 +886,104 @@ def gen_witnesses(rng, a_plain, n):
     return out
 
 
+# ---------------------------------------------------------------------------------------------
+# users of compatible(): the proxy consistency check, the target-vs-value check of Writable
+# ---------------------------------------------------------------------------------------------
+PROXY_WARNINGS = (('does not exist', 'missing'), ('is read only', 'read-only'), ('is not fully compatible', 'not-fully'),
+                  ('has an incompatible datatype', 'incompatible'))
+
+
+class _Log:
+    handlers = []
+
+    def __init__(self):
+        self.warnings = []
+
+    def warning(self, fmt, *args):
+        self.warnings.append((fmt, args))
+
+    def debug(self, *args):
+        pass
+    info = exception = error = debug
+
+    def getChild(self, *args, **kwds):
+        return self
+
+
+def gen_proxy_case(rng):
+    """parameters of a proxy class with their datatypes, and the remote module: its parameters described by related datatypes
+    (the very same, wider, narrower, of another kind …) which the client rebuilds from the description"""
+    params = []
+    for pname in rng.sample(['value', 'target', 'status', 'target_limits', 'p1', 'mode'], rng.choice([1, 2, 3])):
+        a, b, mode = gen_pair(rng, 2)
+        if rng.random() < 0.5:
+            a = plant_variants(rng, dicodec.strip_cls(a), 0.7)
+            b = derive_c(rng, a, rng.choice(['equal', 'equal', 'wider', 'narrower']))
+        r = rng.random()
+        remote = None if r < 0.12 else {'dt': a if r < 0.4 else b, 'readonly': rng.random() < 0.4}
+        params.append({'name': pname, 'export': rng.random() < 0.85, 'readonly': rng.random() < 0.5, 'dt': a, 'remote': remote})
+    return {'k': 'proxy', 'params': params}
+
+
+def eval_proxy(case):
+    """the real ProxyModule._check_descriptive_data on stand-ins for the proxy module and the client; the remote datatypes are
+    rebuilt from their description as SecopClient does; returns (params as built, warnings per parameter)"""
+    from types import SimpleNamespace
+    from frappy.datatypes import get_datatype
+    from frappy.proxy import ProxyModule
+    params, remote, built = {}, {}, []
+    for p in case['params']:
+        dt = dicodec.di_to_dt(p['dt'])
+        params[p['name']] = SimpleNamespace(export=p['export'], readonly=p['readonly'], datatype=dt)
+        bp = dict(p, dt=dicodec.erase(dicodec.dt_to_di(dt)))
+        if p['remote'] is not None:
+            rdt = get_datatype(jround(dicodec.di_to_dt(p['remote']['dt']).export_datatype()), p['name'])
+            remote[p['name']] = {'datatype': rdt, 'readonly': p['remote']['readonly']}
+            bp['remote'] = {'dt': dicodec.erase(dicodec.dt_to_di(rdt)), 'readonly': p['remote']['readonly']}
+        built.append(bp)
+    log = _Log()
+    proxy = SimpleNamespace(module='m', log=log, parameters=params, commands={},
+                            _secnode=SimpleNamespace(modules={'m': {'parameters': remote, 'commands': {}}}))
+    ProxyModule._check_descriptive_data(proxy)   # pylint: disable=protected-access
+    out = {p['name']: [] for p in case['params']}
+    for fmt, args in log.warnings:
+        kind = [k for text, k in PROXY_WARNINGS if text in fmt]
+        out[args[1]].append(kind[0] if kind else 'unknown:' + fmt)
+    order = [k for _, k in PROXY_WARNINGS]
+    return built, [[p['name'], sorted(out[p['name']], key=lambda k: order.index(k) if k in order else 9)] for p in case['params']]
+
+
+def eval_writable(case):
+    """a Writable subclass declaring `value` and `target` with the two datatypes, instantiated"""
+    from types import SimpleNamespace
+    from frappy.errors import ConfigError, ProgrammingError
+    from frappy.lib import generalConfig
+    from frappy.modules import Writable
+    from frappy.params import Parameter
+
+    class Dispatcher:
+        def announce_update(self, moduleobj, pobj):
+            pass
+    generalConfig.testinit(omit_unchanged_within=0)
+    try:
+        cls = type('W', (Writable,), {'value': Parameter('', dicodec.di_to_dt(case['value'])),
+                                      'target': Parameter('', dicodec.di_to_dt(case['target']))})
+    except Exception as e:
+        return {'other': 'class:' + type(e).__name__}
+    try:
+        cls('w', _Log(), {'description': 'x'}, SimpleNamespace(dispatcher=Dispatcher(), secnode=None))
+    except (ConfigError, ProgrammingError) as e:
+        text = str(e)
+        if 'the target range extends beyond the value range' in text:
+            return 'ConfigError'
+        if 'the datatypes of target and value are not compatible' in text:
+            return 'ProgrammingError'
+        return {'other': type(e).__name__ + ':' + text[:80]}
+    except Exception as e:
+        return {'other': type(e).__name__}
+    return 'ok'
+
+
 def eval_compat(case):
     a = dicodec.di_to_dt(case['a'])
     b = dicodec.di_to_dt(case['b'])
@@ -938,6 +1036,12 @@ def req_of(case):
     if k == 'get':
         impl = eval_get(case['datainfo'])
         return {'p': 'C03', 'k': 'get', 'json': dtcodec.py_to_json(case['datainfo'])}, impl
+    if k == 'proxy':
+        built, impl = eval_proxy(case)
+        return {'p': 'C03', 'k': 'proxy', 'params': built}, impl
+    if k == 'writable':
+        impl = eval_writable(case)
+        return {'p': 'C03', 'k': 'writable', 'value': case['value'], 'target': case['target']}, impl
     raise ValueError(k)
 
 
@@ -991,6 +1095,10 @@ def disagreement(case, impl, ans):
     if k == 'get':
         if not tree_eq(m, impl):
             return {'get': (m, impl)}
+        return None
+    if k in ('proxy', 'writable'):
+        if m != impl:
+            return {k: (m, impl)}
         return None
 
 
@@ -1211,6 +1319,28 @@ def run(ctx):
               if dtcodec.encodable(v)]
         cases.append(({'k': 'compat', 'a': a, 'b': b, 'witnesses': ws, 'mode': mode}, 'pair:' + mode))
 
+    for i in range(ctx.budget(400, 6000)):
+        cases.append((gen_proxy_case(rng), 'proxy'))
+    for a, b in variant_pairs():
+        # every derived class as `value` against the plain class as `target` and the other way round, nested and not
+        cases.append(({'k': 'writable', 'value': b, 'target': a, 'mode': 'derived-class'}, 'writable:derived-class(systematic)'))
+    for i in range(ctx.budget(250, 4000)):
+        a, b, mode = gen_pair(rng, 2)
+        if rng.random() < 0.3:
+            a = plant_variants(rng, dicodec.strip_cls(a), 0.7)
+            b = derive_c(rng, a, rng.choice(['equal', 'wider', 'narrower', 'shifted']))
+        if rng.random() < 0.3:
+            b = a
+        elif rng.random() < 0.5:
+            a, b = b, a
+        try:
+            a = dicodec.erase(dicodec.dt_to_di(dicodec.di_to_dt(a)))
+            b = dicodec.erase(dicodec.dt_to_di(dicodec.di_to_dt(b)))
+        except Exception as e:
+            res.count('pair.refused:' + type(e).__name__)
+            continue
+        cases.append(({'k': 'writable', 'value': b, 'target': a, 'mode': mode}, 'writable'))
+
     CH = 20000
     shrunk = 0
     for start in range(0, len(cases), CH):
@@ -1257,6 +1387,13 @@ def run(ctx):
                     res.nontriv(c)
                 if len(res.samples) < 3 and c['tree']['t'] == 'struct' and len(json.dumps(c)) < 1500 and stream != 'corpus':
                     res.samples.append({'case': {'k': k, 'tree': c['tree']}, 'datainfo': impl['datainfo']})
+            elif k == 'proxy':
+                for _, ws in impl:
+                    res.count('proxy.warnings=' + ('+'.join(ws) or 'none'))
+                res.nontriv(c)
+            elif k == 'writable':
+                res.count('writable=' + (impl if isinstance(impl, str) else 'other'))
+                res.nontriv(c)
             else:
                 res.count('get.result=' + ('tree' if isinstance(impl, dict) and 't' in impl else 'bad' if impl == 'bad' else 'other'))
                 if isinstance(impl, dict) and 't' in impl:
